@@ -239,8 +239,9 @@ def d2_stride(prog, rep):
     pdb = prog.pdb
     n = 0
     for k, b in sorted(pdb.bodies.items()):
-        is_m = (b.impl and b.impl['self_ty'].endswith(M) and 'serde' not in k and 'fmt' not in k) or k.startswith(U) or k.startswith('linalg::decomposition::')
-        if not is_m or b.kind == 'closure':
+        # every body of the crate (the stride rule binds shapes from Matrix fields, constructors and is_matrix/is_square results,
+        # so a flat 2-D access anywhere -- e.g. a broadcast arm or a GLM helper -- is covered)
+        if 'serde' in k or 'fmt' in k or b.kind == 'closure':
             continue
         f = prog.func(k)
         cm = COLMAJOR.get(k)
@@ -858,7 +859,10 @@ def d7_predicates(prog, rep):
         ok = False
         why = ''
         for cn, v in [(c, v) for gl in f.guards().values() for c, v in gl]:
-            reads = [z for z in subterms(cn) if tag(z) == 'index' and tag(z[2]) != 'range']
+            reads = []
+            for z in subterms(cn):
+                if tag(z) == 'index' and tag(z[2]) != 'range' and z not in reads:      # distinct element reads
+                    reads.append(z)
             if len(reads) == 2:
                 a, b2 = reads
                 sa, sb = ix.split_stride(poly(a[2])), ix.split_stride(poly(b2[2]))
